@@ -193,8 +193,25 @@ func (a *archetype) SetEntity(index uint32, entity Entity) {
 	a.addEntity(index, &entity)
 }
 
+// escapeSink is never written to. It only exists to make the compiler's escape analysis
+// treat values passed to escapes as escaping to the heap (same approach as package reflect).
+var escapeSink struct {
+	enabled bool
+	value   interface{}
+}
+
+// escapes forces the given value, and everything it points to, to be heap-allocated.
+// Required because component data is copied via unsafe byte copies,
+// which are invisible to the compiler's escape analysis.
+func escapes(value interface{}) {
+	if escapeSink.enabled {
+		escapeSink.value = value
+	}
+}
+
 // Set overwrites a component with the data behind the given pointer
 func (a *archetype) Set(index uint32, id ID, comp interface{}) unsafe.Pointer {
+	escapes(comp)
 	lay := a.getLayout(id)
 	dst := a.Get(index, id)
 	size := lay.itemSize
